@@ -366,7 +366,8 @@ func buildOpsModel(c *Ctx) *opsModel {
 			}
 			return valueIf != nil && opsTypeName(sl.Elem()) == valueIf
 		}
-		var cands []*ast.FuncDecl
+		var cands, popSigs []*ast.FuncDecl
+		discards := map[*types.Func]bool{}
 		for _, fd := range AllFuncDecls(p) {
 			fn, _ := p.TypesInfo.Defs[fd.Name].(*types.Func)
 			if fn == nil || fd.Body == nil {
@@ -382,7 +383,11 @@ func buildOpsModel(c *Ctx) *opsModel {
 					break
 				}
 			}
-			if sig.Params().Len() == 0 && sig.Results().Len() == 1 && valueIf != nil && opsTypeName(sig.Results().At(0).Type()) == valueIf {
+			// a nullary method that re-slices the operand stack: with a value result the pop itself, without one
+			// a discard (the shrinking half of a pop rebuilt from peek + discard)
+			isPopSig := sig.Params().Len() == 0 && sig.Results().Len() == 1 && valueIf != nil && opsTypeName(sig.Results().At(0).Type()) == valueIf
+			isDiscardSig := sig.Params().Len() == 0 && sig.Results().Len() == 0
+			if isPopSig || isDiscardSig {
 				shrinks := false
 				ast.Inspect(fd.Body, func(n ast.Node) bool {
 					as, ok := n.(*ast.AssignStmt)
@@ -411,9 +416,35 @@ func buildOpsModel(c *Ctx) *opsModel {
 					return true
 				})
 				if shrinks {
-					m.pops[fn] = true
+					if isPopSig {
+						m.pops[fn] = true
+					} else {
+						discards[fn] = true
+					}
+				} else if isPopSig {
+					popSigs = append(popSigs, fd)
 				}
 			}
+		}
+		// pop rebuilt from a read of the top and a discard: a nullary method with a value result that calls a
+		// discard. The discards count as pops of their own when called directly (a Drop handler).
+		for _, fd := range popSigs {
+			fn := p.TypesInfo.Defs[fd.Name].(*types.Func)
+			n := 0
+			ast.Inspect(fd.Body, func(x ast.Node) bool {
+				if call, ok := x.(*ast.CallExpr); ok {
+					if cal := CalleeOf(p.TypesInfo, call); cal != nil && discards[cal] {
+						n++
+					}
+				}
+				return true
+			})
+			if n == 1 {
+				m.pops[fn] = true
+			}
+		}
+		for fn := range discards {
+			m.pops[fn] = true
 		}
 		m.vmEntry = m.entryAmong(p.TypesInfo, cands)
 		if m.vmEntry == nil {
